@@ -323,12 +323,18 @@ def execute(sc):
         live_ids_after = [q.qubit_id for q in live]
         try:
             conn.flush()
-        except RuntimeError as e:
+        except P.StepLimit:
+            obs["status"] = "step-limit"
+            obs["error"] = "executor step limit reached"
+            return obs
+        except Exception as e:  # noqa: BLE001 - executor faults are observations, not harness errors
             if "blocked on a wait" in str(e):
                 obs["status"] = "blocked"
-                obs["error"] = str(e)
-                return obs
-            raise
+            else:
+                obs["status"] = "runtime-fault"
+            obs["error"] = f"{type(e).__name__}: {e}"[:300]
+            obs["trace"] = [t for t in ex.trace if t[0] in ("rot", "g1", "g2")][-40:]
+            return obs
         unit = ex._qubit_unit_modules[conn.app_id]
         obs["handle_ids"] = handle_ids
         obs["live_ids"] = live_ids_after
